@@ -235,7 +235,7 @@ class C04(Spec):
         return case
 
     def gen(self, tier, rng):
-        n = 700 if tier == 'quick' else 8000
+        n = 550 if tier == "quick" else 8000
         cases = []
         for k in range(n):
             hint = [None, None, 'connect', 'implicit', 'auto'][k % 5]
